@@ -555,6 +555,12 @@ pub fn run_ctor(ctx: &Ctx, report: &mut Report) {
 }
 
 pub fn run_inner(ctx: &Ctx, report: &mut Report) {
+    ctx.replay_corpus("api_ops", report);
+    ctx.replay_corpus("wire_bytes", report);
+    if ctx.tier == Tier::Thorough && std::env::var("VERIF_C06_CHILD").is_err() {
+        ctx.fuzz_campaign("api_ops", 4_000_000, 4096, report);
+        ctx.fuzz_campaign("wire_bytes", 20_000_000, 300, report);
+    }
     ctx.run_part(&OpsPart, report);
     let list = scenario_list(ctx.tier);
     ctx.run_enum("scripted-large-sizes", list.len() as u64, |i| list[i as usize].clone(), exec_scenario, report, false);
@@ -650,6 +656,7 @@ pub fn run(ctx: &Ctx, report: &mut Report) -> EvidenceMeta {
 
 pub fn replay(part_name: &str, case: &Value) -> Option<Result<(), Fail>> {
     match part_name {
+        p if p.starts_with("fuzz:") => replay_fuzz(p, case),
         "api-sequences" => Some(replay_with(&OpsPart, case)),
         "scripted-large-sizes" => Some((|| {
             let s: Scenario = serde_json::from_value(case.clone()).map_err(|e| Fail::new("replay:bad-file", e.to_string()))?;
